@@ -13,7 +13,9 @@ import GdcVerif.Model.ParseCore
   unread, and every later read fails exactly as in the Go code (all reads are bounds-checked).
   `skipSegment` consumes `length` bytes counted from the length field: 0 or 1 for the length
   fields 0 and 1, i.e. the Go offset moves BACK into the length field.
-  MCT / MCC / MCO segments are not modelled: the walk answers `beyond`.
+  MCT / MCC / MCO (Part 2 multi-component transform) segments are parsed as in parseMCT / parseMCC /
+  parseMCO: they are counted; what the DECODER later does with them (extractBindings,
+  applyDecoderMCTBindings: index uses of the component ids) is outside this model.
 -/
 namespace J2kH
 open PC
@@ -185,6 +187,73 @@ def parseCOM (bs : Bytes) : Except Res Nat × Nat :=
       | none => (.error .err, length - 4)
   | _, _ => (.error .err, 0)
 
+/-- `parseMCT`: (consumed, allocated).  `make([]byte, payloadLen-6)` with payloadLen ≥ 6 checked first. -/
+def parseMCT (bs : Bytes) : Except Res Nat × Nat :=
+  match u16 bs 0 with
+  | none => (.error .err, 0)
+  | some length =>
+    if length < 8 then (.error .err, 0)                 -- payloadLen = length − 2 < 6
+    else match u16 bs 2, u16 bs 4, u16 bs 6 with
+      | some zmct, some _, some ymct =>
+        if zmct ≠ 0 then (.error .err, 0)
+        else if ymct ≠ 0 then (.error .err, 0)
+        else if (length : Int) - 2 - 6 < 0 then (.error (.panic .j2kMake), 0)
+        else match rdN bs 8 (length - 8) with
+          | some _ => (.ok length, length - 8)
+          | none => (.error .err, length - 8)
+      | some zmct, none, _ => if zmct ≠ 0 then (.error .err, 0) else (.error .err, 0)
+      | _, _, _ => (.error .err, 0)
+
+/-- component list of an MCC collection: `count & 0x7FFF` ids of 1 or 2 bytes (bit 15 of the count) -/
+def mccList (bs : Bytes) (i word : Nat) : Option Nat :=
+  let n := word % 32768
+  let cb := if word / 32768 % 2 = 1 then 2 else 1
+  if i + cb * n ≤ bs.length then some (cb * n) else none
+
+/-- `parseMCC`: (consumed or error, allocated): the two id lists are allocated (2 bytes per id) before
+    they are read; nothing in parseMCC can panic (all sizes are unsigned fields), so the result is an `Option` -/
+def parseMCC (bs : Bytes) : Option Nat × Nat :=
+  match u16 bs 0, u16 bs 2, u8 bs 4, u16 bs 5, u16 bs 7, u8 bs 9, u16 bs 10 with
+  | some length, some zmcc, some _, some ymcc, some qmcc, some _, some nmcci =>
+    if length < 9 ∨ zmcc ≠ 0 ∨ ymcc ≠ 0 ∨ qmcc = 0 then (none, 0)
+    else
+      let a1 := 2 * (nmcci % 32768)
+      match mccList bs 12 nmcci with
+      | none => (none, a1)
+      | some l1 =>
+        match u16 bs (12 + l1) with
+        | none => (none, a1)
+        | some mmcci =>
+          let a2 := a1 + 2 * (mmcci % 32768)
+          match mccList bs (14 + l1) mmcci with
+          | none => (none, a2)
+          | some l2 =>
+            match rdN bs (14 + l1 + l2) 3 with
+            | none => (none, a2)
+            | some _ =>
+              -- consumed (from after the length field) = 15 + l1 + l2; remain = payloadLen − consumed
+              if length - 2 > 15 + l1 + l2 then
+                match rdN bs (17 + l1 + l2) (length - 2 - (15 + l1 + l2)) with
+                | some _ => (some length, a2 + (length - 2 - (15 + l1 + l2)))
+                | none => (none, a2 + (length - 2 - (15 + l1 + l2)))
+              else (some (17 + l1 + l2), a2)
+  | _, _, _, _, _, _, _ => (none, 0)
+
+/-- `parseMCO`: (consumed or error, allocated) -/
+def parseMCO (bs : Bytes) : Option Nat × Nat :=
+  match u16 bs 0, u8 bs 2 with
+  | some length, some sc =>
+    if length < 3 then (none, 0)
+    else match rdN bs 3 sc with
+      | none => (none, sc)
+      | some _ =>
+        if length - 2 > 1 + sc then
+          match rdN bs (3 + sc) (length - 2 - (1 + sc)) with
+          | some _ => (some length, sc + (length - 2 - (1 + sc)))
+          | none => (none, sc + (length - 2 - (1 + sc)))
+        else (some (3 + sc), sc)
+  | _, _ => (none, 0)
+
 /-- `skipSegment`: bytes consumed counted from the length field (`length` itself: 0 and 1 step
     back into the length field); error when that exceeds what is unread -/
 def skipSegment (bs : Bytes) : Option Nat :=
@@ -279,6 +348,9 @@ structure St where
   npoc : Nat := 0
   nrgn : Nat := 0
   ncom : Nat := 0
+  nmct : Nat := 0
+  nmcc : Nat := 0
+  nmco : Nat := 0
   part : Option Part := none
   tiles : List TileRec := []
   allocs : List Nat := []
@@ -341,7 +413,6 @@ def mergeTilePart (tiles : List TileRec) (p : Part) (dataLen : Nat) : Option (Li
             some (tiles.set k t')
           | _, _, _, _, _, _ => none
 
-def isBeyond (m : Nat) : Bool := m = 0xFF74 || m = 0xFF75 || m = 0xFF77
 
 /-- continue after a segment that consumed `k` bytes behind the marker -/
 def next (st : St) (bs : Bytes) (k : Nat) : Step St := .more st ((bs.drop 2).drop k)
@@ -416,6 +487,24 @@ def mCOM (st : St) (bs : Bytes) : Step St :=
     | (.ok k, a) => next ({ st with ncom := st.ncom + 1 }.al a) bs k
     | (.error e, a) => .done (st.al a) e
 
+def mMCT (st : St) (bs : Bytes) : Step St :=
+  if st.siz.isNone then .done st .err
+  else match parseMCT (bs.drop 2) with
+    | (.ok k, a) => next ({ st with nmct := st.nmct + 1 }.al a) bs k
+    | (.error e, a) => .done (st.al a) e
+
+def mMCC (st : St) (bs : Bytes) : Step St :=
+  if st.siz.isNone then .done st .err
+  else match parseMCC (bs.drop 2) with
+    | (some k, a) => next ({ st with nmcc := st.nmcc + 1 }.al a) bs k
+    | (none, a) => .done (st.al a) .err
+
+def mMCO (st : St) (bs : Bytes) : Step St :=
+  if st.siz.isNone then .done st .err
+  else match parseMCO (bs.drop 2) with
+    | (some k, a) => next ({ st with nmco := st.nmco + 1 }.al a) bs k
+    | (none, a) => .done (st.al a) .err
+
 def mSkip (st : St) (bs : Bytes) : Step St :=
   if st.siz.isNone then .done st .err
   else match skipSegment (bs.drop 2) with
@@ -438,7 +527,9 @@ def mainTurn (st : St) (bs : Bytes) (m : Nat) : Step St :=
   else if m = 0xFF5F then mPOC st bs
   else if m = 0xFF5E then mRGN st bs
   else if m = 0xFF64 then mCOM st bs
-  else if isBeyond m then .done st .beyond
+  else if m = 0xFF74 then mMCT st bs
+  else if m = 0xFF75 then mMCC st bs
+  else if m = 0xFF77 then mMCO st bs
   else mSkip st bs
 
 /-! ### tile-part header handlers (`handleCOD`, …) -/
@@ -487,6 +578,21 @@ def tRGN (st : St) (p : Part) (bs : Bytes) : Step St :=
   | (.ok (r, k), a) => next ({ st with part := some { p with rgn := p.rgn ++ [r] } }.al a) bs k
   | (.error e, a) => .done (st.al a) e
 
+def tMCT (st : St) (bs : Bytes) : Step St :=
+  match parseMCT (bs.drop 2) with
+  | (.ok k, a) => next ({ st with nmct := st.nmct + 1 }.al a) bs k
+  | (.error e, a) => .done (st.al a) e
+
+def tMCC (st : St) (bs : Bytes) : Step St :=
+  match parseMCC (bs.drop 2) with
+  | (some k, a) => next ({ st with nmcc := st.nmcc + 1 }.al a) bs k
+  | (none, a) => .done (st.al a) .err
+
+def tMCO (st : St) (bs : Bytes) : Step St :=
+  match parseMCO (bs.drop 2) with
+  | (some k, a) => next ({ st with nmco := st.nmco + 1 }.al a) bs k
+  | (none, a) => .done (st.al a) .err
+
 def tSkip (st : St) (bs : Bytes) : Step St :=
   match skipSegment (bs.drop 2) with
   | some k => next st bs k
@@ -501,7 +607,9 @@ def thdrTurn (st : St) (p : Part) (bs : Bytes) (m : Nat) : Step St :=
   else if m = 0xFF5D then tQCC st p bs
   else if m = 0xFF5F then tPOC st p bs
   else if m = 0xFF5E then tRGN st p bs
-  else if isBeyond m then .done st .beyond
+  else if m = 0xFF74 then tMCT st bs
+  else if m = 0xFF75 then tMCC st bs
+  else if m = 0xFF77 then tMCO st bs
   else tSkip st bs
 
 /-- one turn of `consumeMainHeader` / `parseTileHeader` / the tile loop of `Parse` -/
@@ -549,23 +657,101 @@ theorem tilesTurn_shrinks (st : St) (bs : Bytes) : Shrinks bs (tilesTurn st bs) 
 macro "shrink_handler" hm:ident : tactic =>
   `(tactic| (repeat' split) <;> first | trivial | exact next_shrinks _ _ $hm)
 
+theorem m3_shrinks (st : St) {bs : Bytes} {m : Nat} (hm : u16 bs 0 = some m) :
+    Shrinks bs (mMCT st bs) ∧ Shrinks bs (mMCC st bs) ∧ Shrinks bs (mMCO st bs) := by
+  refine ⟨?_, ?_, ?_⟩
+  · unfold mMCT
+    split
+    · trivial
+    · generalize parseMCT (bs.drop 2) = r
+      obtain ⟨r1, a⟩ := r
+      cases r1 with
+      | ok k => exact next_shrinks _ _ hm
+      | error e => trivial
+  · unfold mMCC
+    split
+    · trivial
+    · generalize parseMCC (bs.drop 2) = r
+      obtain ⟨r1, a⟩ := r
+      cases r1 with
+      | some k => exact next_shrinks _ _ hm
+      | none => trivial
+  · unfold mMCO
+    split
+    · trivial
+    · generalize parseMCO (bs.drop 2) = r
+      obtain ⟨r1, a⟩ := r
+      cases r1 with
+      | some k => exact next_shrinks _ _ hm
+      | none => trivial
+
+theorem t3_shrinks (st : St) {bs : Bytes} {m : Nat} (hm : u16 bs 0 = some m) :
+    Shrinks bs (tMCT st bs) ∧ Shrinks bs (tMCC st bs) ∧ Shrinks bs (tMCO st bs) := by
+  refine ⟨?_, ?_, ?_⟩
+  · unfold tMCT
+    generalize parseMCT (bs.drop 2) = r
+    obtain ⟨r1, a⟩ := r
+    cases r1 with
+    | ok k => exact next_shrinks _ _ hm
+    | error e => trivial
+  · unfold tMCC
+    generalize parseMCC (bs.drop 2) = r
+    obtain ⟨r1, a⟩ := r
+    cases r1 with
+    | some k => exact next_shrinks _ _ hm
+    | none => trivial
+  · unfold tMCO
+    generalize parseMCO (bs.drop 2) = r
+    obtain ⟨r1, a⟩ := r
+    cases r1 with
+    | some k => exact next_shrinks _ _ hm
+    | none => trivial
+
+theorem mEnd_shrinks (st : St) (bs : Bytes) : Shrinks bs (mEnd st bs) := by
+  unfold mEnd; split
+  · trivial
+  · exact tilesTurn_shrinks _ _
+
 theorem mainTurn_shrinks (st : St) {bs : Bytes} {m : Nat} (hm : u16 bs 0 = some m) :
     Shrinks bs (mainTurn st bs m) := by
   unfold mainTurn
-  repeat' split
-  · unfold mEnd; split
-    · trivial
-    · exact tilesTurn_shrinks _ _
-  · unfold mSIZ; shrink_handler hm
-  · unfold mCOD; shrink_handler hm
-  · unfold mCOC; shrink_handler hm
-  · unfold mQCD; shrink_handler hm
-  · unfold mQCC; shrink_handler hm
-  · unfold mPOC; shrink_handler hm
-  · unfold mRGN; shrink_handler hm
-  · unfold mCOM; shrink_handler hm
-  · trivial
-  · unfold mSkip; shrink_handler hm
+  by_cases hc : m = 0xFF90 ∨ m = 0xFFD9
+  · rw [if_pos hc]; exact mEnd_shrinks _ _
+  rw [if_neg hc]; clear hc
+  by_cases hc : m = 0xFF51
+  · rw [if_pos hc]; (unfold mSIZ; shrink_handler hm)
+  rw [if_neg hc]; clear hc
+  by_cases hc : m = 0xFF52
+  · rw [if_pos hc]; (unfold mCOD; shrink_handler hm)
+  rw [if_neg hc]; clear hc
+  by_cases hc : m = 0xFF53
+  · rw [if_pos hc]; (unfold mCOC; shrink_handler hm)
+  rw [if_neg hc]; clear hc
+  by_cases hc : m = 0xFF5C
+  · rw [if_pos hc]; (unfold mQCD; shrink_handler hm)
+  rw [if_neg hc]; clear hc
+  by_cases hc : m = 0xFF5D
+  · rw [if_pos hc]; (unfold mQCC; shrink_handler hm)
+  rw [if_neg hc]; clear hc
+  by_cases hc : m = 0xFF5F
+  · rw [if_pos hc]; (unfold mPOC; shrink_handler hm)
+  rw [if_neg hc]; clear hc
+  by_cases hc : m = 0xFF5E
+  · rw [if_pos hc]; (unfold mRGN; shrink_handler hm)
+  rw [if_neg hc]; clear hc
+  by_cases hc : m = 0xFF64
+  · rw [if_pos hc]; (unfold mCOM; shrink_handler hm)
+  rw [if_neg hc]; clear hc
+  by_cases hc : m = 0xFF74
+  · rw [if_pos hc]; exact (m3_shrinks st hm).1
+  rw [if_neg hc]; clear hc
+  by_cases hc : m = 0xFF75
+  · rw [if_pos hc]; exact (m3_shrinks st hm).2.1
+  rw [if_neg hc]; clear hc
+  by_cases hc : m = 0xFF77
+  · rw [if_pos hc]; exact (m3_shrinks st hm).2.2
+  rw [if_neg hc]; clear hc
+  unfold mSkip; shrink_handler hm
 
 theorem sodTurn_shrinks (st : St) (p : Part) {bs : Bytes} {m : Nat} (hm : u16 bs 0 = some m) :
     Shrinks bs (sodTurn st p bs) := by
@@ -579,16 +765,37 @@ theorem sodTurn_shrinks (st : St) (p : Part) {bs : Bytes} {m : Nat} (hm : u16 bs
 theorem thdrTurn_shrinks (st : St) (p : Part) {bs : Bytes} {m : Nat} (hm : u16 bs 0 = some m) :
     Shrinks bs (thdrTurn st p bs m) := by
   unfold thdrTurn
-  repeat' split
-  · exact sodTurn_shrinks _ _ hm
-  · unfold tCOD; shrink_handler hm
-  · unfold tCOC; shrink_handler hm
-  · unfold tQCD; shrink_handler hm
-  · unfold tQCC; shrink_handler hm
-  · unfold tPOC; shrink_handler hm
-  · unfold tRGN; shrink_handler hm
-  · trivial
-  · unfold tSkip; shrink_handler hm
+  by_cases hc : m = 0xFF93
+  · rw [if_pos hc]; exact sodTurn_shrinks _ _ hm
+  rw [if_neg hc]; clear hc
+  by_cases hc : m = 0xFF52
+  · rw [if_pos hc]; (unfold tCOD; shrink_handler hm)
+  rw [if_neg hc]; clear hc
+  by_cases hc : m = 0xFF53
+  · rw [if_pos hc]; (unfold tCOC; shrink_handler hm)
+  rw [if_neg hc]; clear hc
+  by_cases hc : m = 0xFF5C
+  · rw [if_pos hc]; (unfold tQCD; shrink_handler hm)
+  rw [if_neg hc]; clear hc
+  by_cases hc : m = 0xFF5D
+  · rw [if_pos hc]; (unfold tQCC; shrink_handler hm)
+  rw [if_neg hc]; clear hc
+  by_cases hc : m = 0xFF5F
+  · rw [if_pos hc]; (unfold tPOC; shrink_handler hm)
+  rw [if_neg hc]; clear hc
+  by_cases hc : m = 0xFF5E
+  · rw [if_pos hc]; (unfold tRGN; shrink_handler hm)
+  rw [if_neg hc]; clear hc
+  by_cases hc : m = 0xFF74
+  · rw [if_pos hc]; exact (t3_shrinks st hm).1
+  rw [if_neg hc]; clear hc
+  by_cases hc : m = 0xFF75
+  · rw [if_pos hc]; exact (t3_shrinks st hm).2.1
+  rw [if_neg hc]; clear hc
+  by_cases hc : m = 0xFF77
+  · rw [if_pos hc]; exact (t3_shrinks st hm).2.2
+  rw [if_neg hc]; clear hc
+  unfold tSkip; shrink_handler hm
 
 theorem step_shrinks (st : St) (bs : Bytes) : Shrinks bs (step st bs) := by
   unfold step
